@@ -10,6 +10,10 @@ CONSTANTS
   NDup = 1
   MaxUid = 12
   Bug = "none"
+  ErrSts = {1, 2}
+  HostSts = {1}
+  DeckMems = {}
+  SendFail = TRUE
 INVARIANT UidBound
 INVARIANT AtMostOnce
 INVARIANT Limits
